@@ -283,6 +283,7 @@ struct World {
     mark_failed: Arc<AtomicU64>,
     party_id: String,
     params: ProtocolParameters,
+    params_switch: Option<(u64, ProtocolParameters)>,
     attempts: u8,
     retention: Option<usize>,
     base: Vec<SignerWithStake>,
@@ -306,7 +307,14 @@ fn signers_with_version(base: &[SignerWithStake], v: u64) -> Vec<SignerWithStake
 }
 
 impl World {
-    async fn new(name: &str, fx: &Fixture, e0: u64, imm0: u64, sv0: u64, params: ProtocolParameters, attempts: u8,
+    /// protocol parameters in force at epoch `e`
+    fn params_at(&self, e: u64) -> ProtocolParameters {
+        match &self.params_switch { Some((s, other)) if e >= *s => other.clone(), _ => self.params.clone() }
+    }
+}
+
+impl World {
+    async fn new(name: &str, fx: &Fixture, e0: u64, imm0: u64, sv0: u64, params: ProtocolParameters, params_switch: Option<(u64, ProtocolParameters)>, attempts: u8,
                  retention: Option<usize>, cfg: &[(u64, Vec<SignedEntityTypeDiscriminants>)]) -> World {
         let dir = mithril_common::test::TempDir::create("c20", &format!("{}-{}", name, std::process::id()));
         let tp = |e: u64| TimePoint {
@@ -329,12 +337,22 @@ impl World {
                 .expect("fake aggregator"),
         );
         fake_agg.release_epoch_settings().await;
-        for (e, ds) in cfg {
+        // the markers of the entity types, plus one where the protocol parameters change
+        let params_of = |e: u64| match &params_switch { Some((s, other)) if e >= *s => other.clone(), _ => params.clone() };
+        let mut markers: Vec<(u64, Vec<SignedEntityTypeDiscriminants>)> = cfg.to_vec();
+        if let Some((s, _)) = &params_switch {
+            if !markers.iter().any(|(e, _)| e == s) {
+                let ds = markers.iter().filter(|(e, _)| e <= s).max_by_key(|(e, _)| *e).map(|(_, d)| d.clone()).unwrap_or_else(|| markers[0].1.clone());
+                markers.push((*s, ds));
+                markers.sort_by_key(|(e, _)| *e);
+            }
+        }
+        for (e, ds) in &markers {
             fake_agg
                 .set_network_configuration_marker(
                     Epoch(*e),
                     MithrilNetworkConfigurationForEpoch {
-                        protocol_parameters: params.clone(),
+                        protocol_parameters: params_of(*e),
                         enabled_signed_entity_types: ds.iter().cloned().collect::<BTreeSet<_>>(),
                         signed_entity_types_config: SignedEntityTypeConfiguration { cardano_transactions: None, cardano_blocks_transactions: None },
                     },
@@ -366,6 +384,7 @@ impl World {
             mark_failed: Arc::new(AtomicU64::new(0)),
             party_id: fx.signers[0].party_id.clone(),
             params,
+            params_switch,
             attempts,
             retention,
             base: fx.signers.clone(),
@@ -576,6 +595,8 @@ struct RunCfg {
     attempts: u8,
     retention: Option<usize>,
     params: ProtocolParameters,
+    /// from this epoch on the network runs with these other protocol parameters (a parameter update)
+    params_switch: Option<(u64, ProtocolParameters)>,
 }
 
 /// everything observed in one run
@@ -942,7 +963,8 @@ impl<'a> Runner<'a> {
                 return;
             }
         };
-        let builder = match SignerBuilder::new(&cur, &self.w.params) {
+        // (markers are indexed by recording epoch: the parameters in force at signing epoch t are those of the marker of t - 1)
+        let builder = match SignerBuilder::new(&cur, &self.w.params_at(t - 1)) {
             Ok(b) => b,
             Err(e) => {
                 self.sfail("rejected", format!("event {idx}: {name}: key registration of the aggregator's signer set fails: {e:#}"));
@@ -991,14 +1013,14 @@ impl<'a> Runner<'a> {
             _ => return Err("entity type outside the harness".to_string()),
         };
         let next = self.reference_signers(t, t - 1).await?;
-        let avk: ProtocolAggregateVerificationKeyForConcatenation = SignerBuilder::new(&next, &self.w.params)
+        let avk: ProtocolAggregateVerificationKeyForConcatenation = SignerBuilder::new(&next, &self.w.params_at(t))
             .map_err(|e| format!("next signer set: {e:#}"))?
             .compute_aggregate_verification_key()
             .to_concatenation_aggregate_verification_key()
             .to_owned()
             .into();
         pm.set_message_part(ProtocolMessagePartKey::NextAggregateVerificationKey, avk.to_json_hex().map_err(|e| format!("{e:#}"))?);
-        pm.set_message_part(ProtocolMessagePartKey::NextProtocolParameters, self.w.params.compute_hash());
+        pm.set_message_part(ProtocolMessagePartKey::NextProtocolParameters, self.w.params_at(t).compute_hash());
         pm.set_message_part(ProtocolMessagePartKey::CurrentEpoch, t.to_string());
         Ok(pm)
     }
@@ -1131,7 +1153,7 @@ impl Gen {
 
 async fn run_case(name: &str, fx: &Fixture, cfg: &RunCfg, seed: u64, len: usize, faulty: bool, mark_faults: bool, n_epochs: u64,
                   script: Option<Vec<Ev>>) -> RunOut {
-    let w = World::new(name, fx, cfg.e0, cfg.imm0, cfg.sv0, cfg.params.clone(), cfg.attempts, cfg.retention, &cfg.cfg).await;
+    let w = World::new(name, fx, cfg.e0, cfg.imm0, cfg.sv0, cfg.params.clone(), cfg.params_switch.clone(), cfg.attempts, cfg.retention, &cfg.cfg).await;
     let inc = w.start_signer().await;
     let mut book = Book {
         epoch: cfg.e0,
@@ -1262,7 +1284,7 @@ async fn main() {
 
     // ---- case 0: witness of the known finding (also a K case)
     {
-        let cfg = RunCfg { e0: 1, imm0: 1, sv0: 0, cfg: vec![(0, all_discs())], attempts: 2, retention: None, params: params_std.clone() };
+        let cfg = RunCfg { e0: 1, imm0: 1, sv0: 0, cfg: vec![(0, all_discs())], attempts: 2, retention: None, params: params_std.clone(), params_switch: None };
         if sink.wanted() {
             let out = run_case("witness", &fx, &cfg, 0, 0, false, true, 3, Some(witness_script())).await;
             let idx = sink.case("witness", &out.req, &out.imp);
@@ -1306,7 +1328,9 @@ async fn main() {
         let attempts = *r.pick(&[1u8, 2, 2, 3]);
         let retention = if r.chance(1, 3) { Some(r.range(1, 3) as usize) } else { None };
         let low = r.chance(1, 4);
-        let cfg = RunCfg { e0, imm0, sv0, cfg: cfg_markers, attempts, retention, params: if low { params_low.clone() } else { params_std.clone() } };
+        // a protocol parameter update taking effect at some epoch of the run (every third run)
+        let params_switch = if r.chance(1, 3) { Some((e0 + r.range(1, 4), if low { params_std.clone() } else { params_low.clone() })) } else { None };
+        let cfg = RunCfg { e0, imm0, sv0, cfg: cfg_markers, attempts, retention, params: if low { params_low.clone() } else { params_std.clone() }, params_switch };
         let tag = match (faulty, mark_faults, retention.is_some(), low) {
             (false, _, false, false) => "plain",
             (false, _, true, _) => "plain-retention",
